@@ -116,7 +116,7 @@ fn check_typed<T: Float + FromPrimitive + Send + Sync + std::fmt::Debug>(
     }
 }
 
-fn moments_check<T: Float + FromPrimitive>(ctx: &Ctx, ty: &str, seed: u64) {
+fn moments_check<T: Float + FromPrimitive + Send + Sync + std::fmt::Debug>(ctx: &Ctx, ty: &str, seed: u64) {
     // Fixed, fully enumerated sanity band on the 256x256 block: mean within 5 sigma, variance within 3 %.
     // Declared non-generalising (the normal law of the generator is trusted, DESIGN §4).
     let v = init_with_seed::<T>(256, 256, seed);
